@@ -29,7 +29,10 @@ ASSUMPTIONS = [
     'order among attributes / namespace nodes of one element is irrelevant here (paths name them)',
 ]
 FLOORS = {'rt:pi': (0.03, 'rt:node'), 'rt:pos>1': (0.08, 'rt:node'), 'rt:namespaced-name': (0.05, 'rt:node'),
-          'rt:text': (0.10, 'rt:node'), 'rt:comment': (0.03, 'rt:node'), 'rt:pi-function-name-target': (0.01, 'rt:node')}
+          'rt:text': (0.10, 'rt:node'), 'rt:parser-with-default-namespace': (0.5, 'rt:node'),
+          'fr:fragment-with-same-named-top-level-elements': (0.15, 'fr:fragment'),
+          'fr:under-later-same-named-top-level-element': (0.05, 'fr:node'),
+          'rt:no-namespace-step-with-default-namespace-twin': (0.0015, 'rt:node'), 'rt:comment': (0.03, 'rt:node'), 'rt:pi-function-name-target': (0.01, 'rt:node')}
 
 FN = 'http://www.w3.org/2005/xpath-functions'
 NS_ARGS = [None, {'p': 'urn:p'}, {'': 'urn:d', 'p': 'urn:p', 'q': 'urn:q'}, {'q': 'urn:q', '': 'urn:d'}]
@@ -39,6 +42,8 @@ _cfg = st.fixed_dictionaries({
     'rootkind': st.sampled_from(['elem', 'doc']),
     'fragment': st.sampled_from([None, None, True, False]),
     'namespaces': st.sampled_from(NS_ARGS),
+    # default element namespace in the static context of the parser that evaluates the path strings (Q{}name must ignore it)
+    'defns': st.sampled_from([None, 'urn:d', 'urn:d', 'urn:p']),
 })
 
 
@@ -53,12 +58,18 @@ def _cases(max_elems):
 _P = {}
 
 
-def parser31():
-    if 'p' not in _P:
+def parser31(defns=None):
+    """XPath 3.1 parser (3.0 for urn:p) whose static context has `defns` as default element namespace"""
+    if 'path' not in _P:
         from elementpath.xpath31 import XPath31Parser
-        _P['p'] = XPath31Parser()
-        _P['path'] = _P['p'].parse('path(.)')
-    return _P['p']
+        _P[None] = XPath31Parser()
+        _P['path'] = _P[None].parse('path(.)')
+    if defns not in _P:
+        from elementpath.xpath30 import XPath30Parser
+        from elementpath.xpath31 import XPath31Parser
+        cls = XPath30Parser if defns == 'urn:p' else XPath31Parser
+        _P[defns] = cls(namespaces={'': defns, 'p': 'urn:p', 'q': 'urn:q'})
+    return _P[defns]
 
 
 _FUNCTION_LIKE = {'pi', 'exp', 'text', 'data', 'node', 'comment', 'div', 'if'}
@@ -118,11 +129,22 @@ def _pi_class(rn):
     return cls
 
 
-def _eval(text, top, fragment, item=None):
+def _defns_sensitive(rn, defns):
+    """the path of rn goes through a no-namespace element that has a sibling with the same local name in `defns`"""
+    n = rn
+    while n is not None:
+        if n.kind == 'element' and not n.name.startswith('{') and n.parent is not None and \
+                any(c.kind == 'element' and c.name == '{%s}%s' % (defns, n.name) for c in n.parent.children):
+            return True
+        n = n.parent
+    return False
+
+
+def _eval(text, top, fragment, item=None, defns=None):
     """-> ('nodes', list) | ('unparsable', code) | ('error', code) | ('escape', bucket, repr)"""
     from elementpath import XPathContext, ElementPathError
     try:
-        tok = parser31().parse(text)
+        tok = parser31(defns).parse(text)
     except ElementPathError as e:
         return ('unparsable', getattr(e, 'code', None) or type(e).__name__)
     except Exception as e:
@@ -171,6 +193,8 @@ def judge_roundtrip_one(spec, cfg, rec: Recorder | None = None) -> list[Disc]:
         return discs
     parser31()
     path_tok = _P['path']
+    defns = cfg.get('defns')
+    dn = '/parser-with-default-namespace' if defns else ''
     top_is_doc = ref.top.kind == 'document'
     path_prop_ok = top_is_doc or tc['ctx_dummy']
     xml = gx.to_xml(spec)
@@ -193,7 +217,7 @@ def judge_roundtrip_one(spec, cfg, rec: Recorder | None = None) -> list[Disc]:
             if not isinstance(p, str) or not p:
                 discs.append(Disc(f'C14/fn-path/no-string/{kind}', 'a non-empty string', repr(p), detail))
             else:
-                _verdict('fn-path', _eval(p, top, fr), node, rn, p, discs, detail)
+                _verdict('fn-path' + dn, _eval(p, top, fr, defns=defns), node, rn, p, discs, detail)
                 if p in seen:
                     discs.append(Disc(f'C14/fn-path/duplicate-path/{kind}' + ('/' + _pi_class(rn) if kind == 'pi' else ''),
                                       'distinct strings', p, f'also for node {seen[p]}; ' + detail))
@@ -211,7 +235,7 @@ def judge_roundtrip_one(spec, cfg, rec: Recorder | None = None) -> list[Disc]:
             if not isinstance(pp, str) or not pp:
                 discs.append(Disc(f'C14/path-property/no-string/{kind}', 'a non-empty string', repr(pp), detail))
             else:
-                _verdict('path-property', _eval(pp, top, fr), node, rn, pp, discs, detail)
+                _verdict('path-property' + dn, _eval(pp, top, fr, defns=defns), node, rn, pp, discs, detail)
                 if pp in seen_prop:
                     discs.append(Disc(f'C14/path-property/duplicate-path/{kind}' + ('/' + _pi_class(rn) if kind == 'pi' else ''),
                                       'distinct strings', pp, f'also for node {seen_prop[pp]}; ' + detail))
@@ -229,6 +253,10 @@ def judge_roundtrip_one(spec, cfg, rec: Recorder | None = None) -> list[Disc]:
                 classes.append('rt:namespaced-name')
             if kind == 'pi' and rn.name in _FUNCTION_LIKE:
                 classes.append('rt:pi-function-name-target')
+            if defns:
+                classes.append('rt:parser-with-default-namespace')
+                if _defns_sensitive(rn, defns):
+                    classes.append('rt:no-namespace-step-with-default-namespace-twin')
             rec.case([spec, cfg, list(map(repr, rn.addr))], nontrivial=pos_gt1 or nsname or kind != 'element', classes=classes,
                      sample={'check': 'roundtrip', 'xml': xml, 'cfg': cfg, 'node': repr(rn.addr), 'path': p if isinstance(p, str) else None})
     return discs
@@ -271,7 +299,9 @@ def judge_iterpaths(case, rec: Recorder | None = None) -> list[Disc]:
             detail = f'node={a[1:]} {rn.kind} {rn.name} {cfg["backend"]} xml={xml}'
             if node is None:
                 continue
-            _verdict('iterpaths', _eval(p, top, True, item=top), node, rn, p, discs, detail)
+            dfn = cfg.get('defns')
+            _verdict('iterpaths' + ('/parser-with-default-namespace' if dfn else ''), _eval(p, top, True, item=top, defns=dfn),
+                     node, rn, p, discs, detail)
             if p in seen:
                 discs.append(Disc(f'C14/iterpaths/duplicate-path/{rn.kind}', 'distinct strings', p, detail))
             seen[p] = a
@@ -282,9 +312,138 @@ def judge_iterpaths(case, rec: Recorder | None = None) -> list[Disc]:
 
 
 # --------------------------------------------------------------------------
+# multi-rooted document nodes (fn:parse-xml-fragment)
+# --------------------------------------------------------------------------
+
+def _frag_cases(max_elems):
+    half = gx.tree_specs(max_elems=max(3, max_elems // 2), max_depth=3, max_attrs=2, pi_targets=('x', 'y', 'pi', 'a'), misc_weight=3,
+                         elem_locals=('a', 'a', 'a', 'b'), doc_misc=False, min_elems=3)
+
+    def join(t):
+        # the CONTENT of the two generated root elements (text, elements, comments, PIs with their tails) is the fragment
+        s1, s2 = t
+        root = dict(s1['root'], c=s1['root']['c'] + s2['root']['c'])
+        return {'root': root, 'pre': [], 'post': []}
+    return st.fixed_dictionaries({
+        'spec': st.tuples(half, half).map(join),
+        'backend': st.sampled_from(['et', 'lxml']),
+        'defns': st.sampled_from([None, 'urn:d']),
+    })
+
+
+def _strip_xml_id(e):
+    e['a'] = [a for a in e['a'] if not (a[0] == gx.XML_NS and a[1] == 'id')]      # xml:id must be an NCName for parsers
+    for c in e['c']:
+        if c['k'] == 'e':
+            _strip_xml_id(c)
+
+
+def fragment_text(spec):
+    """(xml text, [clark names of the top-level elements in order])"""
+    import copy
+    root = copy.deepcopy(spec['root'])
+    _strip_xml_id(root)
+    esc = lambda t: (t or '').replace('&', '&amp;').replace('<', '&lt;')
+    out, names = [esc(root['t'])], []
+    for c in root['c']:
+        if c['k'] == 'e':
+            e = gx.normalize({'root': dict(c, tl=None), 'pre': [], 'post': []})['root']
+            out.append(gx.serialize(e))
+            names.append(gx.clark(e['ns'], e['n']))
+        elif c['k'] == 'c':
+            out.append('<!--%s-->' % c['v'])
+        else:
+            out.append('<?%s%s?>' % (c['tg'], ' ' + c['v'] if c['v'] else ''))
+        out.append(esc(c['tl']))
+    return ''.join(out), names
+
+
+def judge_fragment(case, rec: Recorder | None = None) -> list[Disc]:
+    from elementpath import XPathContext, ElementPathError
+    import xml.etree.ElementTree as ET
+    discs: list[Disc] = []
+    text, names = fragment_text(case['spec'])
+    if case['backend'] == 'lxml':
+        from lxml import etree as L
+        dummy = L.Element('dummy')
+    else:
+        dummy = ET.Element('dummy')
+    parser31()
+    if 'frag' not in _P:
+        _P['frag'] = _P[None].parse('parse-xml-fragment($s)')
+    try:
+        doc = _P['frag'].evaluate(XPathContext(dummy, variables={'s': text}))
+    except ElementPathError as e:
+        if getattr(e, 'code', '').endswith('FODC0006'):
+            raise RuntimeError(f'harness produced an ill-formed fragment: {text!r}: {e}')
+        return [Disc(f'C14/fragment/parse-xml-fragment-raises/{getattr(e, "code", "?")}', 'a document node', repr(e), text)]
+    if getattr(doc, 'node_kind', None) != 'document':
+        return [Disc('C14/fragment/not-a-document-node', 'document node', repr(doc), text)]
+    tops = [c for c in doc.children if c.node_kind == 'element']
+    if [c.name for c in tops] != names:
+        return [Disc(f'C14/fragment/top-level-elements/{case["backend"]}', names, [c.name for c in tops], text)]
+    defns = case.get('defns')
+    dn = '/parser-with-default-namespace' if defns else ''
+    seen = {}
+    path_tok = _P['path']
+    # expected path of the k-th top-level element: /Q{uri}local[position among the same-named top-level elements]
+    counts, want_top = {}, {}
+    for c in tops:
+        counts[c.name] = counts.get(c.name, 0) + 1
+        uri, local = (c.name[1:].split('}') if c.name.startswith('{') else ('', c.name))
+        want_top[id(c)] = '/Q{%s}%s[%d]' % (uri, local, counts[c.name])
+
+    class R:        # minimal stand-in for the reference node used by _verdict
+        def __init__(self, n):
+            self.kind = {'processing-instruction': 'pi'}.get(n.node_kind, n.node_kind)
+            self.name = getattr(n, 'name', None)
+    for node in doc.iter():
+        rn = R(node)
+        below = node
+        while below.parent is not None and below.parent is not doc:
+            below = below.parent
+        k = tops.index(below) if below in tops else -1
+        where = 'document' if node is doc else 'top-level' if node.parent is doc else \
+            'under-first-of-its-name' if k >= 0 and want_top[id(below)].endswith('[1]') else 'under-later-same-named-top-level-element'
+        detail = f'{rn.kind} {rn.name} {where} backend={case["backend"]} fragment={text}'
+        for mode, get in (('path-property', lambda: node.path),
+                          ('fn-path', lambda: path_tok.evaluate(XPathContext(doc, item=node)))):
+            try:
+                p = get()
+            except Exception as e:
+                discs.append(Disc(escape_bucket('C14', e) + f'/fragment/{mode}/{rn.kind}', 'a string', repr(e), detail))
+                continue
+            if not isinstance(p, str) or not p:
+                discs.append(Disc(f'C14/fragment/{mode}/no-string/{rn.kind}', 'a non-empty string', repr(p), detail))
+                continue
+            res = _eval(p, doc, None, defns=defns)
+            if rn.kind == 'pi':
+                rn_pi = R(node)
+                rn_pi.kind = 'pi-node'     # no sibling classification here
+                _verdict(f'fragment/{mode}{dn}/{where}', res, node, rn_pi, p, discs, detail)
+            else:
+                _verdict(f'fragment/{mode}{dn}/{where}', res, node, rn, p, discs, detail)
+            if mode == 'path-property':
+                if p in seen:
+                    discs.append(Disc(f'C14/fragment/duplicate-path/{rn.kind}/{where}', 'distinct strings', p, detail))
+                seen.setdefault(p, True)
+                if id(node) in want_top and p != want_top[id(node)]:
+                    discs.append(Disc('C14/fragment/format/top-level-element', want_top[id(node)], p, detail))
+        if rec is not None:
+            rec.case([case['spec'], case['backend'], defns, where, rn.kind, len(seen)], nontrivial=where != 'document',
+                     classes=['fr:node', f'fr:{where}', f'fr:{rn.kind}'],
+                     sample={'check': 'fragment', 'fragment': text, 'backend': case['backend']})
+    if rec is not None and len(set(names)) < len(names):
+        rec.cls('fr:fragment-with-same-named-top-level-elements')
+    if rec is not None:
+        rec.cls('fr:fragment')
+    return discs
+
+
+# --------------------------------------------------------------------------
 # module interface
 # --------------------------------------------------------------------------
-_JUDGES = {'roundtrip': judge_roundtrip, 'iterpaths': judge_iterpaths}
+_JUDGES = {'roundtrip': judge_roundtrip, 'iterpaths': judge_iterpaths, 'fragment': judge_fragment}
 
 
 def selftest():
@@ -313,28 +472,34 @@ def selftest():
     assert ref_path(t2.top, False) == 'Q{http://www.w3.org/2005/xpath-functions}root()'
 
 
+def _strategy(job):
+    return _frag_cases(job['max_elems']) if job['check'] == 'fragment' else _cases(job['max_elems'])
+
+
 def jobs(tier, seed):
     q = tier == 'quick'
     out = []
-    nr, ni = (12, 3) if q else (12, 4)
-    per_r, per_i = (800, 1500) if q else (8000, 16000)
+    nr, ni, nf = (12, 2, 2) if q else (11, 3, 2)
+    per_r, per_i, per_f = (800, 1500, 1200) if q else (8000, 16000, 12000)
     me = 10 if q else 24
     for i in range(nr):
         out.append({'check': 'roundtrip', 'shard': i, 'n': per_r, 'max_elems': me, 'seed': derive_seed(seed, 'C14', 'roundtrip', i)})
     for i in range(ni):
         out.append({'check': 'iterpaths', 'shard': i, 'n': per_i, 'max_elems': me, 'seed': derive_seed(seed, 'C14', 'iterpaths', i)})
+    for i in range(nf):
+        out.append({'check': 'fragment', 'shard': i, 'n': per_f, 'max_elems': me, 'seed': derive_seed(seed, 'C14', 'fragment', i)})
     return out
 
 
 def run_job(job, rec: Recorder):
     chk = job['check']
     jd = _JUDGES[chk]
-    hyp_collect(_cases(job['max_elems']), lambda case: rec.discs_of(chk, case, jd(case, rec)), job['n'], job['seed'], rec)
+    hyp_collect(_strategy(job), lambda case: rec.discs_of(chk, case, jd(case, rec)), job['n'], job['seed'], rec)
 
 
 def shrink_job(job, bucket, budget):
     chk = job['check']
-    return gx.find_and_minimize(_cases(job['max_elems']), _JUDGES[chk], bucket, job['n'], job['seed'], min(budget, 250))
+    return gx.find_and_minimize(_strategy(job), _JUDGES[chk], bucket, job['n'], job['seed'], min(budget, 250))
 
 
 def judge(check, case):
